@@ -26,8 +26,8 @@ func init() {
 
 	addVariants(
 		Variant{ID: "c02-r2-rows-unguarded", Prop: "C02", File: "streamer.go",
-			Old: "\t\t\ttranEvents = append(tranEvents, tranEvent)\n\t\t\tif autocommit {\n\t\t\t\tif err = commit(ev); err != nil {\n\t\t\t\t\treturn pos, newError(err).msgf(\"parseEvents commit fail in UpdateRows event\")\n\t\t\t\t}\n\t\t\t}\n",
-			New: "\t\t\ttranEvents = append(tranEvents, tranEvent)\n\t\t\t{\n\t\t\t\tif err = commit(ev); err != nil {\n\t\t\t\t\treturn pos, newError(err).msgf(\"parseEvents commit fail in UpdateRows event\")\n\t\t\t\t}\n\t\t\t}\n",
+			Old:    "\t\t\ttranEvents = append(tranEvents, tranEvent)\n\t\t\tif autocommit {\n\t\t\t\tif err = commit(ev); err != nil {\n\t\t\t\t\treturn pos, newError(err).msgf(\"parseEvents commit fail in UpdateRows event\")\n\t\t\t\t}\n\t\t\t}\n",
+			New:    "\t\t\ttranEvents = append(tranEvents, tranEvent)\n\t\t\t{\n\t\t\t\tif err = commit(ev); err != nil {\n\t\t\t\t\treturn pos, newError(err).msgf(\"parseEvents commit fail in UpdateRows event\")\n\t\t\t\t}\n\t\t\t}\n",
 			Expect: "C02-R2 commit-site@parser[arm=IsUpdateRows"},
 		Variant{ID: "c02-r3-gtid-commits", Prop: "C02", File: "streamer.go",
 			Old: "\t\tcase ev.IsGTID():\n", New: "\t\tcase ev.IsGTID():\n\t\t\tif !autocommit {\n\t\t\t\tif err = commit(ev); err != nil {\n\t\t\t\t\treturn pos, newError(err)\n\t\t\t\t}\n\t\t\t}\n",
@@ -51,8 +51,8 @@ func init() {
 			Old: "\"rollback\": StatementRollback,", New: "\"ROLLBACK\": StatementRollback,",
 			Expect: "C02-R5 key@statementPrefixes"},
 		Variant{ID: "c02-r1-handler-elsewhere", Prop: "C02", File: "streamer.go",
-			Old: "\t\t\ttranEvents = append(tranEvents, tranEvent)\n\t\t\tif autocommit {\n\t\t\t\tif err = commit(ev); err != nil {\n\t\t\t\t\treturn pos, newError(err).msgf(\"parseEvents commit fail in WriteRows event\")",
-			New: "\t\t\ttranEvents = append(tranEvents, tranEvent)\n\t\t\tif len(tranEvents) > 1000 {\n\t\t\t\t_ = s.sendTransaction(newTransaction(pos, pos, 0, tranEvents))\n\t\t\t}\n\t\t\tif autocommit {\n\t\t\t\tif err = commit(ev); err != nil {\n\t\t\t\t\treturn pos, newError(err).msgf(\"parseEvents commit fail in WriteRows event\")",
+			Old:    "\t\t\ttranEvents = append(tranEvents, tranEvent)\n\t\t\tif autocommit {\n\t\t\t\tif err = commit(ev); err != nil {\n\t\t\t\t\treturn pos, newError(err).msgf(\"parseEvents commit fail in WriteRows event\")",
+			New:    "\t\t\ttranEvents = append(tranEvents, tranEvent)\n\t\t\tif len(tranEvents) > 1000 {\n\t\t\t\t_ = s.sendTransaction(newTransaction(pos, pos, 0, tranEvents))\n\t\t\t}\n\t\t\tif autocommit {\n\t\t\t\tif err = commit(ev); err != nil {\n\t\t\t\t\treturn pos, newError(err).msgf(\"parseEvents commit fail in WriteRows event\")",
 			Expect: "C02-R1 handler-call@"},
 	)
 }
